@@ -266,7 +266,7 @@ def main():
             h = hashlib.sha1(json.dumps([r['id'], v['sig']]).encode()).hexdigest()[:8]
             path = os.path.join(rdir, '%s-%s.json' % (safe(r['id'])[:60], h))
             with open(path, 'w') as f:
-                json.dump({'property': prop, 'obligation': r['id'], 'tier': tier, 'sig': v['sig'],
+                json.dump({'property': prop, 'obligation': v.get('replay_obligation', r['id']), 'found_by': r['id'], 'tier': tier, 'sig': v['sig'],
                            'detail': v['detail'], 'witness': v['witness'], 'replay': v.get('replay')}, f, indent=1)
             v['replay_file'] = path
             if k is None:
